@@ -3,8 +3,8 @@
     proofs in proofs/ResolveProofs.v. *)
 From Coq Require Import String Lia.
 From FA Require Import model.Base model.Varint model.Value model.Schema model.Float model.Utf8 model.Codec
-                       model.Validate model.Read model.Resolve
-                       proofs.VarintProofs proofs.CodecProofs proofs.ResolveProofs.
+                       model.Validate model.Read model.Resolve model.ResolveOld
+                       proofs.VarintProofs proofs.CodecProofs proofs.ResolveProofs proofs.ResolveOldProofs.
 
 Open Scope Z_scope.
 
@@ -24,21 +24,24 @@ Theorem C08_factor_code_writer_encoding : forall n we w a, typedn n we w a ->
 Proof. exact rdec_rval_wire. Qed.
 Print Assumptions C08_factor_code_writer_encoding.
 
-(** ** C08_factor, second half: inside the agreement zone the value-level algorithm of the code IS the specification.
+(** ** C08_factor, second half: the value-level algorithm of the (repaired) code IS the specification.
 
-    FULL statement (false of the faithful model, see the refutations below):
+    FULL statement:
         typedn n we w a -> (n <= f)%nat ->
         rdec f we re ropts0 w (Some r) (wire a ++ x) = lift x (resolve we re w r a)
 
-    Proved ( _partial ): for schemas without by-name references and annotations ([inline]) under the computable side
-    condition [agree we re w r] = "every decision the code takes on the way (match_schemas / match_types verdicts, the
-    reader-union branch it picks) coincides with the specification's, no int/long -> float promotion, no empty-string enum
-    default, reader-only fields have defaults that are already values of their type".  [agree] excludes exactly the
-    shapes of the refutations below that can be written without references (F6, kind of a named type not compared,
-    unconverted defaults, int -> float, same unqualified name in a union); the three remaining ones (F7, the TypeError,
-    references compared by name only) need by-name references.
-    MISSING for the full-strength partial theorem: schemas with by-name references / recursive types and dict-form
-    primitives (annotations) — for those only C08_factor_code (all inputs) and the correspondence check stand. *)
+    Proved ( _partial ): for schemas without by-name references and annotations ([inline]) under the computable
+    side condition [agree we re w r], which follows the specification's own traversal (the reader branch [spec_idx]
+    picks, the pairs that [smatch]) and asks at the pairs reached only for: the reader schema is not the empty union
+    (the code takes `[]` for "no reader schema"), a reader enum default is not the empty string (`if default:`), the
+    JSON defaults of the reader's fields are well-formed defaults of their types.  That the code's match_schemas /
+    match_types verdicts and its choice of a reader-union branch coincide with the specification's is PROVED for
+    these schemas (match_inline, reader_branch_idx_spec), as is the consistency of read_record's
+    `len(readers_field_dict) > len(record)` guard (guard_always); they are no longer side conditions.
+    The full statement was FALSE of the code before the repairs fa4e4ec, 7315827, 0f60141, 7fea917, ea123da:
+    see C08_old_code_refuted_* below.
+    MISSING for full strength: schemas with by-name references / recursive types and dict-form primitives
+    (annotations) - for those C08_factor_code (all inputs) and the correspondence check stand. *)
 Theorem C08_factor_zone_partial : forall n we w a, typedn n we w a ->
   forall re r f x, (n <= f)%nat -> inline w = true -> inline r = true -> agree we re w r = true ->
   rdec f we re ropts0 w (Some r) (wire a ++ x)%list = lift x (resolve we re w r a).
@@ -52,6 +55,27 @@ Theorem C08_factor_zone_layout_partial : forall n we w l, typedl n we w l ->
   rdec f we re ropts0 w (Some r) (wire_l l ++ x)%list = lift x (resolve we re w r (erase l)).
 Proof. exact rdec_resolve_zone. Qed.
 Print Assumptions C08_factor_zone_layout_partial.
+
+(** what used to be side conditions: on inline schemas the code's verdicts and its choice of a reader-union
+    branch ARE the specification's, and the guard of read_record never hides a missing reader field *)
+Theorem C08_match_is_spec : forall we re w r,
+  inline w = true -> inline r = true -> is_union w = false -> is_union r = false ->
+  match_top we re w r = if smatch we re true w r then ROk r else RErrResolution.
+Proof. exact match_top_spec. Qed.
+Print Assumptions C08_match_is_spec.
+
+Theorem C08_branch_choice_is_spec : forall we re f w rbs, (2 * amdepth w + 2 <= f)%nat ->
+  inline w = true -> is_union w = false -> inline (SUnion rbs) = true ->
+  reader_branch (fun l => match_types f we re l w) rbs = ROk (pick_branch we re w rbs).
+Proof.
+  intros we re f w rbs Hf Hw Hu Hr.
+  rewrite reader_branch_nth, (reader_branch_idx_spec we re f w rbs Hf Hw Hu Hr), pick_branch_idx. reflexivity.
+Qed.
+Print Assumptions C08_branch_choice_is_spec.
+
+Theorem C08_record_guard_consistent : forall rfs wfs, guard_ok rfs wfs = true.
+Proof. exact guard_always. Qed.
+Print Assumptions C08_record_guard_consistent.
 
 (** the value-level statement alone *)
 Theorem C08_rval_is_resolve_partial : forall n we w a, typedn n we w a -> forall re r f, (n <= f)%nat ->
@@ -148,81 +172,81 @@ Theorem C08_error_items : forall we re w r l wi ri,
 Proof. exact error_items. Qed.
 Print Assumptions C08_error_items.
 
-(** ** Where the code leaves the specification: the full statement
-
-      C08_factor (FALSE of the faithful model):
-        typedn n we w a -> (n <= f)%nat ->
-        rdec f we re ropts0 w (Some r) (wire a ++ x) = lift x (resolve we re w r a)
-
-    is refuted by each of the following concrete witnesses (all by computation).  They are the shapes
-    [agree] (below, C08_factor_zone) excludes. *)
-Theorem C08_refuted_F6 : exists we re w r a n,
-  typedn n we w a /\ rdec (n + 2) we re ropts0 w (Some r) (wire a) <> lift [] (resolve we re w r a).
+(** ** The inputs on which the code used to leave the specification.
+    [rdec_old] (model/ResolveOld.v) is the code before the repairs; each witness refutes the full statement
+    C08_factor for it.  The same inputs are regression cases of the repaired code ([rdec]): it now agrees with
+    the specification on every one of them. *)
+Theorem C08_old_code_refuted_F6 :
+  typedn 1 [] SBytes f6_a /\
+  rdec_old 3 [] [] ropts0 SBytes (Some f6_r) (wire f6_a) <> lift [] (resolve [] [] SBytes f6_r f6_a) /\
+  rdec 3 [] [] ropts0 SBytes (Some f6_r) (wire f6_a) = lift [] (resolve [] [] SBytes f6_r f6_a).
 Proof.
-  exists [], [], SBytes, f6_r, f6_a, 1%nat. destruct refuted_F6 as (H1 & H2 & H3). split; [exact H1|].
-  change (1 + 2)%nat with 3%nat. rewrite H2, H3. discriminate.
+  destruct fixed_F6 as [H1 H2]. split; [exact typed_F6|]. rewrite old_F6, H1, H2. split; [discriminate|reflexivity].
 Qed.
-Print Assumptions C08_refuted_F6.
+Print Assumptions C08_old_code_refuted_F6.
 
-Theorem C08_refuted_F7 : exists we re w r a n,
-  typedn n we w a /\ rdec (n + 2) we re ropts0 w (Some r) (wire a) = RErrResolution /\ exists v, resolve we re w r a = ROk v.
-Proof.
-  exists f7_we, f7_re, f7_w, f7_r, f7_a, 3%nat. destruct refuted_F7 as (H1 & H2 & H3).
-  split; [exact H1|split; [exact H2|eexists; exact H3]].
-Qed.
-Print Assumptions C08_refuted_F7.
+Theorem C08_old_code_refuted_F7 :
+  typedn 3 f7_we f7_w f7_a /\
+  rdec_old 5 f7_we f7_re ropts0 f7_w (Some f7_r) (wire f7_a) = RErrResolution /\
+  resolve f7_we f7_re f7_w f7_r f7_a = ROk f7_out /\
+  rdec 5 f7_we f7_re ropts0 f7_w (Some f7_r) (wire f7_a) = ROk (f7_out, []).
+Proof. destruct fixed_F7 as [H1 H2]. exact (conj typed_F7 (conj old_F7 (conj H2 H1))). Qed.
+Print Assumptions C08_old_code_refuted_F7.
 
-Theorem C08_refuted_ref_vs_union_inline : exists we re w r a n,
-  typedn n we w a /\ rdec (n + 2) we re ropts0 w (Some r) (wire a) = RErrOther /\ exists v, resolve we re w r a = ROk v.
-Proof.
-  exists g1_we, g1_re, g1_w, g1_r, g1_a, 3%nat. destruct refuted_ref_vs_union_inline as (H1 & H2 & H3).
-  split; [exact H1|split; [exact H2|eexists; exact H3]].
-Qed.
-Print Assumptions C08_refuted_ref_vs_union_inline.
+Theorem C08_old_code_refuted_ref_vs_union_inline :
+  typedn 3 g1_we g1_w g1_a /\
+  rdec_old 5 g1_we g1_re ropts0 g1_w (Some g1_r) (wire g1_a) = RErrOther /\
+  resolve g1_we g1_re g1_w g1_r g1_a = ROk g1_out /\
+  rdec 5 g1_we g1_re ropts0 g1_w (Some g1_r) (wire g1_a) = ROk (g1_out, []).
+Proof. destruct fixed_ref_vs_union_inline as [H1 H2]. exact (conj typed_g1 (conj old_ref_vs_union_inline (conj H2 H1))). Qed.
+Print Assumptions C08_old_code_refuted_ref_vs_union_inline.
 
-Theorem C08_refuted_kind_not_compared :
-  (exists we re w r a n, typedn n we w a /\ rdec (n + 3) we re ropts0 w (Some r) (wire a) = RErrOther /\
-                         resolve we re w r a = RErrResolution) /\
-  (exists we re w r a n v, typedn n we w a /\ rdec (n + 4) we re ropts0 w (Some r) (wire a) = ROk (v, []) /\
-                           resolve we re w r a = RErrResolution).
-Proof.
-  split.
-  - eexists _, _, _, _, _, 2%nat. exact refuted_kind_record_enum.
-  - eexists _, _, _, _, _, 1%nat, _. exact refuted_kind_fixed_record.
-Qed.
-Print Assumptions C08_refuted_kind_not_compared.
+Theorem C08_old_code_refuted_kind_not_compared :
+  typedn 2 [(s2b "R", g2_w)] g2_w (ARecord [AInt 1]) /\ typedn 1 [(s2b "F", F4)] F4 (AFixed [1; 2; 3; 4]) /\
+  (rdec_old 5 [(s2b "R", g2_w)] [(s2b "R", g2_r)] ropts0 g2_w (Some g2_r) (wire (ARecord [AInt 1])) = RErrOther /\
+   rdec_old 5 [(s2b "F", F4)] [(s2b "F", g2b_r)] ropts0 F4 (Some g2b_r) (wire (AFixed [1; 2; 3; 4])) = ROk (PBytes [1; 2; 3; 4], [])) /\
+  (rdec 5 [(s2b "R", g2_w)] [(s2b "R", g2_r)] ropts0 g2_w (Some g2_r) (wire (ARecord [AInt 1])) = RErrResolution /\
+   resolve [(s2b "R", g2_w)] [(s2b "R", g2_r)] g2_w g2_r (ARecord [AInt 1]) = RErrResolution /\
+   rdec 5 [(s2b "F", F4)] [(s2b "F", g2b_r)] ropts0 F4 (Some g2b_r) (wire (AFixed [1; 2; 3; 4])) = RErrResolution /\
+   resolve [(s2b "F", F4)] [(s2b "F", g2b_r)] F4 g2b_r (AFixed [1; 2; 3; 4]) = RErrResolution).
+Proof. exact (conj typed_g2 (conj typed_g2b (conj old_kind fixed_kind))). Qed.
+Print Assumptions C08_old_code_refuted_kind_not_compared.
 
-Theorem C08_refuted_default_unconverted : exists we re w r a n v v',
-  typedn n we w a /\ rdec (n + 3) we re ropts0 w (Some r) (wire a) = ROk (v, []) /\ resolve we re w r a = ROk v' /\ v <> v'.
-Proof.
-  eexists _, _, _, _, _, 2%nat, _, _. destruct refuted_default_bytes as (H1 & H2 & H3).
-  split; [exact H1|split; [exact H2|split; [exact H3|discriminate]]].
-Qed.
-Print Assumptions C08_refuted_default_unconverted.
+Theorem C08_old_code_refuted_default_unconverted :
+  typedn 2 [(s2b "R", g3_w)] g3_w (ARecord [AInt 1]) /\
+  rdec_old 5 [(s2b "R", g3_w)] [(s2b "R", g3_r)] ropts0 g3_w (Some g3_r) (wire (ARecord [AInt 1]))
+    = ROk (PDict [(PStr (s2b "x"), PInt 1); (PStr (s2b "b"), PStr [195; 191])], []) /\
+  rdec 5 [(s2b "R", g3_w)] [(s2b "R", g3_r)] ropts0 g3_w (Some g3_r) (wire (ARecord [AInt 1])) = ROk (g3_out, []) /\
+  resolve [(s2b "R", g3_w)] [(s2b "R", g3_r)] g3_w g3_r (ARecord [AInt 1]) = ROk g3_out.
+Proof. exact (conj typed_g3 (conj old_default_bytes fixed_default_bytes)). Qed.
+Print Assumptions C08_old_code_refuted_default_unconverted.
 
-Theorem C08_refuted_int_to_float : exists z v v',
-  typedn 1 [] SInt (AInt z) /\ rdec 3 [] [] ropts0 SInt (Some SFloat) (wire (AInt z)) = ROk (PFloat v, []) /\
-  resolve [] [] SInt SFloat (AInt z) = ROk (PFloat v') /\ v <> v'.
-Proof.
-  eexists 16777217, _, _. destruct refuted_int_to_float as (H1 & H2 & H3).
-  split; [exact H1|split; [exact H2|split; [exact H3|discriminate]]].
-Qed.
-Print Assumptions C08_refuted_int_to_float.
+Theorem C08_old_code_refuted_int_to_float :
+  typedn 1 [] SInt (AInt 16777217) /\
+  rdec_old 3 [] [] ropts0 SInt (Some SFloat) (wire (AInt 16777217)) = ROk (PFloat 4715268810125344768, []) /\
+  rdec 3 [] [] ropts0 SInt (Some SFloat) (wire (AInt 16777217)) = ROk (PFloat 4715268809856909312, []) /\
+  resolve [] [] SInt SFloat (AInt 16777217) = ROk (PFloat 4715268809856909312).
+Proof. exact (conj typed_g4 (conj old_int_to_float fixed_int_to_float)). Qed.
+Print Assumptions C08_old_code_refuted_int_to_float.
 
-(** reader == writer given as a separate object: the code raises where reading without a reader schema returns a value *)
-Theorem C08_refuted_identity : exists e s a n v,
-  typedn n e s a /\ py_of ropts0 e s a = Some v /\ resolve e e s s a = ROk v /\
-  rdec (n + 2) e e ropts0 s (Some s) (wire a) = RErrResolution.
-Proof.
-  eexists g5_e, g5_u, g5_v, 3%nat, _. destruct refuted_identity_same_unqualified_name as (H1 & H2 & H3 & H4).
-  split; [exact H1|split; [exact H4|split; [exact H3|exact H2]]].
-Qed.
-Print Assumptions C08_refuted_identity.
+(** reader == writer given as a separate object *)
+Theorem C08_old_code_refuted_identity :
+  typedn 3 g5_e g5_u g5_v /\
+  rdec_old 5 g5_e g5_e ropts0 g5_u (Some g5_u) (wire g5_v) = RErrResolution /\
+  rdec 5 g5_e g5_e ropts0 g5_u (Some g5_u) (wire g5_v) = ROk (g5_out, []) /\
+  resolve g5_e g5_e g5_u g5_u g5_v = ROk g5_out /\
+  py_of ropts0 g5_e g5_u g5_v = Some g5_out.
+Proof. exact (conj typed_g5 (conj old_identity_same_unqualified_name fixed_identity_same_unqualified_name)). Qed.
+Print Assumptions C08_old_code_refuted_identity.
 
-Theorem C08_refuted_refs_by_name_only : exists we re w r a n v,
-  typedn n we w a /\ rdec (n + 2) we re ropts0 w (Some r) (wire a) = ROk (v, []) /\ resolve we re w r a = RErrResolution.
-Proof. eexists _, _, _, _, _, 3%nat, _. exact refuted_refs_by_name_only. Qed.
-Print Assumptions C08_refuted_refs_by_name_only.
+Theorem C08_old_code_refuted_refs_by_name_only :
+  typedn 3 [(s2b "R", g6_w); (s2b "F", F4)] g6_w g6_a /\
+  rdec_old 5 [(s2b "R", g6_w); (s2b "F", F4)] [(s2b "R", g6_r); (s2b "F", F5)] ropts0 g6_w (Some g6_r) (wire g6_a)
+    = ROk (PDict [(PStr (s2b "u"), PNone); (PStr (s2b "xs"), PList [])], []) /\
+  rdec 5 [(s2b "R", g6_w); (s2b "F", F4)] [(s2b "R", g6_r); (s2b "F", F5)] ropts0 g6_w (Some g6_r) (wire g6_a) = RErrResolution /\
+  resolve [(s2b "R", g6_w); (s2b "F", F4)] [(s2b "R", g6_r); (s2b "F", F5)] g6_w g6_r g6_a = RErrResolution.
+Proof. exact (conj typed_g6 (conj old_refs_by_name_only fixed_refs_by_name_only)). Qed.
+Print Assumptions C08_old_code_refuted_refs_by_name_only.
 
 (** ** Non-vacuity: a non-trivial pair on which the code and the specification agree — fields reordered, one renamed
     with an alias and promoted string -> bytes, a reader-only field with a default, int -> double, a writer-only
@@ -238,13 +262,12 @@ Example C08_example_in_zone :
   inline ex_w = true /\ inline ex_r = true /\ agree [(s2b "R", ex_w)] [(s2b "ns.R", ex_r)] ex_w ex_r = true.
 Proof. exact example_in_zone. Qed.
 
-(** the witnesses of the refutations are outside the zone ([agree] false, or not [inline]) *)
-Example C08_witnesses_outside_zone :
-  agree [] [] SBytes f6_r = false /\
-  agree [(s2b "R", g2_w)] [(s2b "R", g2_r)] g2_w g2_r = false /\
-  agree [(s2b "F", F4)] [(s2b "F", g2b_r)] F4 g2b_r = false /\
-  agree [(s2b "R", g3_w)] [(s2b "R", g3_r)] g3_w g3_r = false /\
-  agree [] [] SInt SFloat = false /\
-  agree g5_e g5_e g5_u g5_u = false /\
-  inline f7_w = false /\ inline g1_w = false /\ inline g6_w = false.
-Proof. exact witnesses_outside_zone. Qed.
+(** the witnesses without by-name references are inside the zone now *)
+Example C08_witnesses_in_zone :
+  agree [] [] SBytes f6_r = true /\
+  agree [(s2b "R", g2_w)] [(s2b "R", g2_r)] g2_w g2_r = true /\
+  agree [(s2b "F", F4)] [(s2b "F", g2b_r)] F4 g2b_r = true /\
+  agree [(s2b "R", g3_w)] [(s2b "R", g3_r)] g3_w g3_r = true /\
+  agree [] [] SInt SFloat = true /\
+  agree g5_e g5_e g5_u g5_u = true.
+Proof. exact witnesses_in_zone. Qed.
